@@ -578,14 +578,16 @@ func Queue[V any](arguments ...any) col.QueueLike[V] {
 	case sequence != nil:
 		queue = class.MakeFromSequence(sequence)
 	case len(source) > 0:
-		queue = class.Make()
 		var collection = notation.ParseSource(source).(col.Sequential[any])
-		// Convert the values to their real type.
+		// Convert the values to their real type, the first value is the head.
+		var converted = make([]V, collection.GetSize())
+		var index int
 		var iterator = collection.GetIterator()
 		for iterator.HasNext() {
-			var value = iterator.GetNext().(V)
-			queue.AddValue(value)
+			converted[index] = iterator.GetNext().(V)
+			index++
 		}
+		queue = class.MakeFromArray(converted) // The capacity covers the values.
 	default:
 		queue = class.Make()
 	}
